@@ -153,7 +153,14 @@ def run(ctx):
     ctx.check(nstores >= 5, "R3", "package-wide sweep of .structure stores",
               f"only {nstores} stores to .structure found (anchor moved?)", sample={"whole-attribute stores": nstores})
     ctx.unit("structure_stores", nstores)
-    ctx.floor("R3", 8)
+    # .atoms hands out a fresh mapping: editing it (as replace() does) must not change what the formula reports next
+    a1 = atoms(f)
+    if isinstance(a1, dict):
+        a1[O] = sp.Integer(99)
+        a1.pop(Fe, None)
+        dict_eq(ctx, "R3", "editing the mapping returned by .atoms does not change the formula", atoms(f), {Fe: q[0], ionI: q[1]},
+                fsite(ctx, "formulas.Formula.atoms"))
+    ctx.floor("R3", 9)
 
     # ---- R4 every produced structure is immutable at every level -------------
     produced = {"f+g": h, "n*f": nf, "n*f single": nf1, "1*f": one, "formula(dict)": f, "formula(seq)": I.call(fm, [seq], {}),
